@@ -590,3 +590,39 @@ def c19(work, tier, seed):
                        "which non-canonical strings are accepted is not prescribed; canonical = Fen!Canonical (strict grammar, e.p. target on rank 3 or 6, re-encodes to itself)",
                        "canonical lower-case coordinate notation must be accepted for legal moves; other spellings are only required not to be accepted for something that is not a legal move"]
     return rep.finish(work)
+
+
+# ----------------------------------------------------------------------------------------
+@check("C20")
+def c20(work, tier, seed):
+    rep = Report("C20", tier, seed)
+    vh = vlib.build_harness(work)
+    quick = tier == "quick"
+    mc_chess(work, rep, tier, ["MirrorInv"])
+    shards = 8 if quick else 16
+
+    def one(i):
+        trace = work.path("engines%d.ndjson" % i)
+        vlib.run_harness(work, vh, ["engines", "-seed", seed * 100 + i, "-n", 9 if quick else 400, "-plies", 24 if quick else 60, "-out", trace])
+        r = vlib.validate_trace(work, "TraceEngines", ["C20"], trace, timeout=3300, heap="4g")
+        c = {"book": 0, "engines": 0}
+        for line in open(trace):
+            if line.startswith('{"book"') or '"op":"book"' in line[:200]:
+                c["book"] += 1
+            elif '"op":"engines"' in line:
+                c["engines"] += 1
+        r.stats = c
+        return r
+    results = vlib.run_many(one, range(shards))
+    for r in results:
+        rep.counters(r.stats)
+    rep.traces = rep.cov.get("engines", 0)
+    rep.sample(vlib.read_line(results[0].trace, 1)[:600])
+    rep.sample(vlib.read_line(results[0].trace, 30)[:1500])
+    vlib.absorb_trace_results(rep, results)
+    require(rep, ["book", "engines"], "C20")
+    rep.extra["book_keys_probed"] = "every position within two plies of the start position, for the SARGON and BERNSTEIN books"
+    rep.assumptions = ["mirror pairs are produced by playing the mirrored game (start FEN mirrored at string level, moves mirrored), so last-move and castled-flag inputs mirror too; TLC checks the logged mirror = Chess!Mirror",
+                       "move filters are called the way the searches call them: selection obtained at the parent, predicate evaluated after the move is pushed",
+                       "SARGON's evaluation is only required to be finite (it is not colour-blind by design: it is relative to the root of a search)"]
+    return rep.finish(work)
